@@ -62,6 +62,7 @@ MUST = {
     "gcmem": [("gc", None), ("reserve", "nil"), ("reserve", "limit"), ("beginspan", "nil"), ("release", "nil")],
     "alsub": [("openconn", "nil"), ("openconn", "limit")],
     "xfer": [("setpeer", "limit"), ("setpeer", "nil")],
+    "subcnt": [("openconn", "limit"), ("openconn", "subnet"), ("openconn", "nil")],
     "xfer3": [("setpeer", "limit"), ("setpeer", "nil")],
 }
 
@@ -69,13 +70,13 @@ MUST = {
 def tiers(ctx):
     if ctx.tier == "thorough":
         return {
-            "printed": ["memp", "span", "connq", "subnet", "allow", "connmem", "stream", "streamq", "streammem", "gcmem"],
+            "printed": ["memp", "span", "connq", "subnet", "allow", "connmem", "stream", "streamq", "streammem", "gcmem", "subcnt"],
             "exhaustive": [("mem", 3), ("conn", 3)],
             "concurrent": [("cconn", 2), ("cstream", 2), ("cmem", 4)],
             "traces": 150, "races": 300, "random": 3000,
         }
     return {
-        "printed": ["memp", "spanq", "connq", "subnetq", "allowq", "connmem", "streamq", "streammem", "gcmem"],
+        "printed": ["memp", "spanq", "connq", "subnetq", "allowq", "connmem", "streamq", "streammem", "gcmem", "subcnt"],
         "exhaustive": [],
         "concurrent": [("cconn", 1), ("cstream", 1), ("cmemq", 2)],
         "traces": 12, "races": 40, "random": 300,
